@@ -60,6 +60,12 @@ CLAIMED['C15'] = dict(tech='panic-site inventory over the call graph reachable f
          'suffix-length, buffer-offset invariant); undischarged sites are violations. No nom streaming parser reachable; read loops have EOF exits.',
     ref='DESIGN.md §4 C15')
 
+CLAIMED['C16'] = dict(tech='relational effect summaries of include/exclude/_new compared under the `inverse` relation, who-writes-state rule, call-order (dominance) rule, linear-form start ranges, who-may-call on randomness sources',
+    text='Static (part): the invariant "state = recomputation from the alignment" has a structural inductive proof that is checked: _new establishes it (include summary on zeroed state per active sequence), '
+         'include/exclude are exact inverses on the same cells under complementary guards, nothing else writes the state, next() calls exclude(z) -> prepare_pssm -> update_holdout(z) -> include(z) and yields the '
+         'matrices computed without z, start ranges keep windows inside sequences, and every random draw uses the caller-supplied RNG (determinism).',
+    ref='DESIGN.md §4 C16')
+
 NA = {
     'C11': 'numeric agreement of a tabulated distribution with the exact tail probability: quantifies over run-time floating-point values; no sound static argument in reach (DESIGN.md §6)',
     'C12': 'bounds computed probability ranges by exact tail probabilities at a granularity: run-time numerics, no structural necessary condition (DESIGN.md §6)',
